@@ -22,9 +22,14 @@ mod range_map;
 mod regex_to_nfa;
 mod right_ctx;
 mod semantic_action_table;
+#[cfg(lexgen_verif)]
+mod verif;
 
 #[cfg(test)]
 mod tests;
+
+#[cfg(all(test, lexgen_verif))]
+mod verif_driver;
 
 use ast::{Binding, Lexer, Regex, RegexCtx, Rule, RuleOrBinding, SingleRule, Var};
 use collections::Map;
@@ -54,6 +59,41 @@ pub fn lexer(input: TokenStream) -> TokenStream {
         Ok(lexer) => lexer,
         Err(error) => return TokenStream::from(error.to_compile_error()),
     };
+
+    #[cfg(lexgen_verif)]
+    let verif_lexer_name = type_name.to_string();
+    #[cfg(lexgen_verif)]
+    crate::verif::reset();
+    #[cfg(lexgen_verif)]
+    for rule in &top_level_rules {
+        fn rob(r: &RuleOrBinding) -> String {
+            match r {
+                RuleOrBinding::Binding(Binding { var, re }) => {
+                    format!("AST let {} {}", var.0, crate::verif::regex_sexp(re))
+                }
+                RuleOrBinding::Rule(SingleRule { lhs, rhs }) => format!(
+                    "AST rule {} {} {}",
+                    rhs.as_usize(),
+                    crate::verif::regex_sexp(&lhs.re),
+                    match &lhs.right_ctx {
+                        None => "-".to_string(),
+                        Some(ctx) => crate::verif::regex_sexp(ctx),
+                    }
+                ),
+            }
+        }
+        match rule {
+            Rule::ErrorType { .. } => crate::verif::emit("AST errtype"),
+            Rule::RuleOrBinding(r) => crate::verif::emit(&rob(r)),
+            Rule::RuleSet { name, rules } => {
+                crate::verif::emit(&format!("AST ruleset {}", name));
+                for r in rules {
+                    crate::verif::emit(&rob(r));
+                }
+                crate::verif::emit("AST end");
+            }
+        }
+    }
 
     // Maps DFA names to their initial states in the final DFA
     let mut dfas: Map<String, dfa::StateIdx> = Default::default();
@@ -115,6 +155,8 @@ pub fn lexer(input: TokenStream) -> TokenStream {
             }
 
             Rule::RuleSet { name, rules } => {
+                #[cfg(lexgen_verif)]
+                crate::verif::emit(&format!("RULESET {}", name));
                 let dfa_idx = if name == "Init" {
                     let dfa = init_dfa.insert(compile_rule_set(
                         rules,
@@ -141,14 +183,61 @@ pub fn lexer(input: TokenStream) -> TokenStream {
     }
 
     let mut dfa = match init_dfa {
+        #[cfg(lexgen_verif)]
+        None if crate::verif::enabled() => {
+            crate::verif::emit("RULESET -");
+            crate::verif::emit("RSBEGIN");
+            crate::verif::emit(&unnamed_nfa.verif_dump());
+            let dfa = nfa_to_dfa(&unnamed_nfa);
+            crate::verif::emit(&dfa.verif_dump());
+            crate::verif::emit("RSEND");
+            dfa
+        }
         Some(init_dfa) => init_dfa,
         None => nfa_to_dfa(&unnamed_nfa),
     };
 
     dfa::update_backtracks(&mut dfa);
 
+    #[cfg(lexgen_verif)]
+    {
+        crate::verif::emit("BACKTRACK");
+        crate::verif::emit(&dfa.verif_dump());
+    }
+
     let dfa = dfa::simplify::simplify(dfa, &mut dfas);
 
+    #[cfg(lexgen_verif)]
+    {
+        crate::verif::emit("SIMPLIFIED");
+        crate::verif::emit(&dfa.verif_dump());
+        let mut entries: Vec<(&String, &dfa::StateIdx)> = dfas.iter().collect();
+        entries.sort();
+        for (name, idx) in entries {
+            crate::verif::emit(&format!("ENTRY {} {}", name, idx.verif_usize()));
+        }
+    }
+
+    #[cfg(lexgen_verif)]
+    {
+        let tokens = dfa::codegen::generate(
+            dfa,
+            &right_ctx_dfas,
+            semantic_action_table,
+            user_state_type,
+            user_error_type,
+            dfas,
+            type_name,
+            token_type,
+            visibility,
+            attrs,
+        );
+        crate::verif::emit(&format!("TOKENS {}", tokens));
+        crate::verif::flush(&verif_lexer_name);
+        return tokens.into();
+    }
+
+    #[cfg(not(lexgen_verif))]
     dfa::codegen::generate(
         dfa,
         &right_ctx_dfas,
@@ -201,6 +290,16 @@ fn compile_rule_set(
                 }
             },
         }
+    }
+
+    #[cfg(lexgen_verif)]
+    if crate::verif::enabled() {
+        crate::verif::emit("RSBEGIN");
+        crate::verif::emit(&nfa.verif_dump());
+        let dfa = nfa_to_dfa(&nfa);
+        crate::verif::emit(&dfa.verif_dump());
+        crate::verif::emit("RSEND");
+        return dfa;
     }
 
     nfa_to_dfa(&nfa)
